@@ -1,4 +1,5 @@
 """C11 — the FastOps operator container's bookkeeping always agrees with its contents."""
+from checks import api_cov
 LEAN_TARGETS = ["QmcProps.C11", "drv_c11"]
 BINS = ["c11"]
 
@@ -70,4 +71,5 @@ def main(ck):
     if ck.cargo_build(BINS):
         cases = ck.harness("c11", ["hist"])
         ck.correspond("container-histories", "drv_c11", cases)
+    api_cov.run(ck, "c11")   # otherwise unexercised public API, model-free oracles of this property
     return ck.finish(RULE)
